@@ -42,14 +42,14 @@ TRUSTED = ['random choices are read from the hook source and passed to the model
            'rigorous rounding bound (terms+2) * 2^-52 * sum|terms| (exact equality is implied when n is a power of two)']
 ASSUMPTIONS = ['the model counts n in Z (unbounded): n up to 2^40 is exercised (a sketch merged 33..40 times with a copy of itself, so any 32-bit '
                'truncation of n is visible) and up to 46 levels are reached (k = 2, 40..46 self-merges with a promoting kernel: iterator weights up to 2^45 '
-               'are compared); get_estimate is only queried below 31 levels while DEEP_ESTIMATES is off (its int weight 1 << height is undefined from '
+               'are compared); get_estimate is queried at every depth reached (its level weight is 1ULL << height since fix 13cf11e; before it the int shift was undefined from '
                'level 31 on: fixes/20_estimate_weight_shift.patch); n >= 2^64, num_retained >= 2^32 and one compaction dropping more than 2^32 points '
                'are outside the model and not exercised; one compaction dropping 65999 points is exercised by the implementation-only family densitybigk',
                'self-merge (a.merge(a)) is not exercised here: it is a use-after-free in std::copy/back_inserter, left to C19',
                'the error guarantee of the coreset after compaction (discrepancy bound) is statistical and not claimed']
 
 KINDS = {0: 'dyadic', 1: 'signed', 2: 'gaussian'}
-DEEP_ESTIMATES = __import__('os').environ.get('VERIF_DENSITY_DEEP_ESTIMATES') == '1'   # (maintainer: replace by True after the patch)
+DEEP_ESTIMATES = True   # get_estimate is queried at every depth since fix 13cf11e (1ULL << height)
                          # get_estimate computes its weight as (1 << height) in int: undefined from level 31 on (see ASSUMPTIONS); set to True
                          # once fixes/20_estimate_weight_shift.patch is applied, the deep cases then also query estimates at 32..45 levels
 
